@@ -29,6 +29,12 @@ Sub-checks
              order of the axes x step per axis x offset) with the same logical contents: results as for the C-ordered copy
              plus all oracles of `index` / `convert` / `merge` (details: comment above LAY_NAMED); `index` also runs every
              block of the enumeration through four of these layouts
+    gauge    QTT-cores re-gauged by exact powers of two INSIDE a mode (exponents of mixed signs, |s| <= 1000, every prefix
+             product and the total representable, suffix / inner sub-products up to 2^+-1400, i.e. not representable):
+             qtt_to_tt / core_qtt_to_tt must return 2^(sum s) times the merge of the unscaled cores (rounding bound of one
+             evaluation; == for small-integer cores); unscaled cores Gaussian, small integers, or the result of tt_to_qtt of a
+             Gaussian TT (then also: the re-gauged round trip returns the cores of Y within the accuracy model); derivation:
+             comment above G_PMAX
 
 Tolerance model of `convert` (derivation)
     core_tt_to_qtt factorises q matrices per core with matrix_svd (eigen-decomposition of B B^T or B^T B).  Each
@@ -87,7 +93,12 @@ RULE = ("index: exhaustive enumeration of all 2^(q*d) multi-indices for every (q
         "1..6(12) rows, argument dtypes of deep; conversion part q 1..4(5), d 1..3, q*d <= 9(12), ranks 1..3, Gaussian or small-integer "
         "cores, arguments default / (1e-6, 3) / (1e-10, 100) / (0, 1e12); every array in the 10 named layouts (C, F, T, rows2, cols2, "
         "both2, neg0, neg1, negall, F_neg_strided) and 3(6) drawn ones (axis permutation of the buffer, step in {1, 2, 3, -1, -2} and "
-        "offset 0..2 per axis), skipped buffer elements filled with in-domain junk; non-trivial = index batch with >= 2 rows and d >= 2.")
+        "offset 0..2 per axis), skipped buffer elements filled with in-domain junk; non-trivial = index batch with >= 2 rows and d >= 2. "
+        "gauge: q 1..5(7) (three quarters of the draws q >= 3), d 1..3, q*d <= 12(16), QTT ranks 1..3, unscaled cores Gaussian / integers -3..3 / "
+        "tt_to_qtt(Gaussian TT of ranks 1..3; arguments default, (0, 100), (1e-10, 100), (1e-6, 3)); per mode an exponent vector from the families "
+        "up (first core 2^-300..-700, prefixes rising to 2^+100..700), down (mirror image), walk (prefix exponents drawn in [-700, 700], half of them "
+        "from {-700, -600, 0, 600, 700}), flat (|s| <= 40), single exponents clamped to |s| <= 1000; non-trivial = q >= 3 and some sub-product of >= 2 "
+        "cores that is not a prefix has |exponent| >= 1100 (it is not a double).")
 TOLERANCES = ("index maps: exact (compared as Python integers, for every q <= 62). consistency QTT vs qtt_to_tt(QTT): 2*32*(dq+sum r+2)*eps*E(|cores|) elementwise (== for "
               "small-integer cores). accuracy per core: 1.001*(sqrt(q)*e + q*4*S*sqrt(eps)*||G||_F) in regime T (e >= 100x that floor), "
               "1.001*(sqrt(q)*e + q*64*S*eps*||G||_F) in regime L (well-conditioned core, nothing cut), S = n*max(r1,r2) "
@@ -99,7 +110,10 @@ TOLERANCES = ("index maps: exact (compared as Python integers, for every q <= 62
               "typed vs float64 copy: sum of the two bounds; merge of integer-valued cores: == (rounding bound with eps32 / eps otherwise). "
               "layout: index maps ==; merge / get_many of small-integer cores == and of Gaussian cores within 2x the elementwise abs-majorant "
               "rounding bound of the C-ordered result (no bit-for-bit claim on floats across stride patterns); core_tt_to_qtt / tt_to_qtt: "
-              "the accuracy bounds of convert per layout, layout vs C-ordered copy within the sum of the two bounds, equal ranks in regime L")
+              "the accuracy bounds of convert per layout, layout vs C-ordered copy within the sum of the two bounds, equal ranks in regime L. "
+              "gauge: |H - 2^S*ref| <= 2^S*(2*32*(q + sum r + 2)*eps*Abs + 4*q*rmax*2^(700-1075)*B) elementwise (ref = own bit-by-bit chain on the "
+              "unscaled cores, Abs = the same on their absolute values, second term = gradual-underflow allowance, about 1e-110); == for integer cores; "
+              "re-gauged round trip: the per-core accuracy bound of convert + 2x that tolerance in Frobenius norm")
 ASSUMPTIONS = ["TT side d >= 1 is evaluated with the harness' own dense chain; teneva.get_many is only called on tensors with >= 2 cores",
                "q >= 1 (mode size 1 = 2^0 is outside the quantifier)",
                "index maps: 1 <= q <= 62. The maps work on NumPy's default integer (signed 64-bit here): n = 2^q and every index "
@@ -117,6 +131,11 @@ ASSUMPTIONS = ["TT side d >= 1 is evaluated with the harness' own dense chain; t
                "around, float16 is rejected by numpy.linalg (TypeError)",
                "layout: array arguments are ndarrays of any strides (positive, negative, non-contiguous; no zero strides / broadcast views, "
                "no read-only flag, no ndarray subclasses), element types as in deep (index arrays) and float64 (cores)",
+               "gauge: QTT-cores = (cores with entries of magnitude O(1)) x 2^s_j with, per mode, every prefix sum s_0 + ... + s_j (the total included) "
+               "in [-700, 700] and |s_j| <= 1000, by construction. These are the intermediates of the documented chained contraction (core_qtt_to_tt "
+               "starts from the first core and multiplies the next one from the right); on the unmodified library every such case is served without "
+               "overflow or underflow. Nothing is assumed about the other sub-products (they are not representable in the non-trivial cases). "
+               "Scales whose PREFIX products leave the double range are outside the quantifier (the unmodified library returns inf / 0 there)",
                "NumPy/LAPACK reference arithmetic is correct"]
 
 SQ = math.sqrt(EPS)
@@ -1725,6 +1744,187 @@ def _layout_convert(case, ctx, rng):
     return calls
 
 
+# ------------------------------------------------------------------------------------------- gauge: scales inside a mode
+#
+# A QTT-tensor is invariant under a re-gauging of its cores: multiplying core j of mode k by c_kj multiplies every entry of
+# the merged TT-core k by C_k = prod_j c_kj and changes nothing else.  With c_kj = 2^s_kj the statement is exact in floating
+# point: the scaled cores are exactly representable, and qtt_to_tt / core_qtt_to_tt of the scaled cores must return
+# 2^(S_k) * (merge of the unscaled cores), S_k = sum_j s_kj, up to the rounding of ONE evaluation of the chain - as long as
+# the evaluation itself stays inside the double range.  The documented evaluation ("chained contraction", anchor of the
+# property; teneva/core.py:core_qtt_to_tt starts from Q_list[0] and multiplies the next core from the right) forms the
+# prefix products Q_0 ... Q_j and nothing else, so the domain is, by construction:
+#     every prefix exponent P_kj = s_k0 + ... + s_kj (the total S_k = P_k,q-1 included) lies in [-G_PMAX, G_PMAX],
+#     every single exponent |s_kj| <= G_SMAX (the scaled core itself is representable),
+#     the unscaled cores have entries of magnitude O(1) (Gaussian, small integers, or what tt_to_qtt returned for such a TT).
+# Nothing is required of the other sub-products (suffixes Q_j ... Q_q-1, inner blocks): their exponents P_kj - P_ki reach
+# +-1400, i.e. they are NOT representable - an evaluation that forms them returns inf / nan or a silently zero core.
+#
+# Reference and tolerance.  base_kj := ldexp(scaled core, -s_kj) (exact; equal to the drawn core unless an entry of the
+# scaled core is subnormal, in which case the scaled core - the actual argument - defines the tensor).  ref_k := own
+# bit-by-bit chain of matrix products of the base cores (entries O(1), no range issue).  Then
+#     | H_k - 2^S_k * ref_k |  <=  2^S_k * ( 2*32*(q + sum r + 2)*eps*Abs_k  +  U_k )          elementwise,
+# Abs_k = the same chain on |base| (the rounding bound of `merge` / `layout`, scale-invariant because multiplication by a
+# power of two commutes with rounding), U_k = gradual-underflow allowance: an operation of step j whose result falls
+# below 2^-1022 commits an absolute error <= 2^-1075 at scale 2^P_kj >= 2^-G_PMAX, which reaches the result through the
+# remaining cores, factor <= 2^(S_k - P_kj) * B_k with B_k = prod_j max(1, r_j * max|base_kj|) (bounds every partial
+# abs-majorant); at most 4*r operations per entry and step:  U_k = 4*q*rmax * 2^(G_PMAX - 1075) * B_k  (~1e-110, i.e. nil).
+# Overflow cannot occur: every intermediate is <= 2^G_PMAX * B_k < 2^1023 (B_k < 2^200 is asserted).
+# Integer-valued base cores (|entries| <= 3, ranks <= 3, q <= 7): every partial sum of every evaluation order is an
+# integer < 2^53 times a power of two >= 2^-G_PMAX: the comparison is ==.
+# No bit-for-bit claim for Gaussian cores (H_k vs 2^S_k * core_qtt_to_tt(base)): it would hold for a fixed summation order,
+# which BLAS does not promise across two calls.
+
+G_PMAX = 700
+G_SMAX = 1000
+G_OUT = 1100          # |exponent| of a sub-product of O(1) cores beyond which it has left the double range (2^-1074 .. 2^1024)
+G_KINDS = ("up", "down", "up", "down", "walk", "walk", "flat")
+G_FAMS = ("gauss", "gauss", "smallint", "from_tt")
+
+
+def gauge_sizes(tier):
+    return dict(q_max=5, qd_max=12) if tier == "quick" else dict(q_max=7, qd_max=16)
+
+
+@st.composite
+def gauge_exponents(draw, q):
+    """Exponents s_0..s_q-1 of one mode with every prefix sum in [-G_PMAX, G_PMAX] and |s_j| <= G_SMAX (by construction)."""
+    kind = draw(st.sampled_from(G_KINDS))
+    if kind == "flat":
+        return kind, [draw(st.integers(-40, 40)) for _ in range(q)]
+    if kind in ("up", "down"):
+        lo = -draw(st.one_of(st.integers(600, G_PMAX), st.integers(300, G_PMAX)))
+        hi = draw(st.one_of(st.integers(500, G_PMAX), st.integers(100, G_PMAX)))
+        P = [lo] + sorted(draw(st.integers(lo, hi)) for _ in range(max(0, q - 2))) + ([hi] if q >= 2 else [])
+        if kind == "down":
+            P = [-v for v in P]
+    else:
+        P = [draw(st.one_of(st.integers(-G_PMAX, G_PMAX), st.sampled_from([-G_PMAX, -600, 0, 600, G_PMAX]))) for _ in range(q)]
+    s, prev = [], 0
+    for v in P:
+        step = max(-G_SMAX, min(G_SMAX, v - prev))
+        s.append(step)
+        prev += step
+    return kind, s
+
+
+@st.composite
+def gauge_cases(draw, tier):
+    sz = gauge_sizes(tier)
+    q = draw(st.sampled_from([1, 2] + list(range(3, sz["q_max"] + 1)) * 3))
+    d = draw(st.integers(1, max(1, min(3, sz["qd_max"] // q))))
+    fam = draw(st.sampled_from(G_FAMS))
+    exps, kinds = [], []
+    for _ in range(d):
+        kind, s = draw(gauge_exponents(q))
+        kinds.append(kind)
+        exps.append(s)
+    return {"q": q, "d": d, "fam": fam, "seed": draw(gen.seeds), "exps": exps, "kinds": kinds,
+            "rz": [1] + [draw(st.integers(1, 3)) for _ in range(q * d - 1)] + [1],
+            "r": [1] + [draw(st.integers(1, 3)) for _ in range(d - 1)] + [1],
+            "tt_args": draw(st.sampled_from([[], [0.0, 100], [1.E-10, 100], [1.E-6, 3]]))}
+
+
+def own_merge(Zs):
+    """QTT-cores of one mode -> r_0 x 2^q x r_q core: entry at i is the product of the slices at the little-endian bits of i."""
+    q = len(Zs)
+    H = np.empty((Zs[0].shape[0], 2 ** q, Zs[-1].shape[2]))
+    for i in range(2 ** q):
+        M = Zs[0][:, i & 1, :]
+        for j in range(1, q):
+            M = M @ Zs[j][:, (i >> j) & 1, :]
+        H[:, i, :] = M
+    return H
+
+
+def prop_gauge(case, ctx):
+    q, d, fam, exps = case["q"], case["d"], case["fam"], case["exps"]
+    n = 2 ** q
+    L = q * d
+    rng = np.random.default_rng(case["seed"])
+    ctx.label(f"q={q}", f"d={d}", "values:" + fam, *("exps:" + k for k in case["kinds"]))
+
+    # ---- the unscaled QTT-cores
+    Y = models = None
+    if fam == "from_tt":
+        r_tt = case["r"]
+        Y = [rng.normal(size=(r_tt[k], n, r_tt[k + 1])) for k in range(d)]
+        args = tuple(case["tt_args"])
+        e_tt, r_cap = (1.E-12, 100) if not args else args
+        Z = ctx.lib(teneva.tt_to_qtt, [G.copy() for G in Y], *args)
+        check_qtt_form(ctx, Z, q, d, r_tt, r_cap, "tt_to_qtt")
+        Z = [np.array(c, dtype=float) for c in Z]
+        models = [core_model(G, q, e_tt) for G in Y]
+        if int(r_cap) < max(mm[2] for mm in models):
+            models = None
+    else:
+        rz = case["rz"]
+        draw_vals = (lambda sh: rng.normal(size=sh)) if fam == "gauss" else (lambda sh: rng.integers(-3, 4, size=sh).astype(float))
+        Z = [draw_vals((rz[k], 2, rz[k + 1])) for k in range(L)]
+    rz = ranks_of(Z)
+    ex = fam == "smallint"
+
+    # ---- the scaled cores (the argument), the base cores they define, exponent bookkeeping
+    s_all = [s for mode in exps for s in mode]
+    Zs = [np.ldexp(Z[k], s_all[k]) for k in range(L)]
+    base = [np.ldexp(Zs[k], -s_all[k]) for k in range(L)]
+    ctx.check(all(np.all(np.isfinite(c)) for c in Zs) and all(np.array_equal(np.ldexp(base[k], s_all[k]), Zs[k]) for k in range(L)),
+              "internal: the scaled cores are not exact multiples of the base cores")
+    if fam != "from_tt":
+        ctx.check(all(np.array_equal(a, b) for a, b in zip(base, Z)), "internal: scaling by a power of two was not exact")
+    worst_sub = 0
+    for k in range(d):
+        P = np.cumsum(exps[k]).tolist()
+        ctx.check(all(abs(v) <= G_PMAX for v in P) and all(abs(v) <= G_SMAX for v in exps[k]), "internal: exponents outside the stated domain", exps=exps[k])
+        pre = [0] + P
+        sub = [pre[j + 1] - pre[i] for i in range(1, q) for j in range(i + 1, q)]       # sub-products of >= 2 cores that are not prefixes
+        suf = [P[-1] - pre[i] for i in range(1, q - 1)]                                   # proper suffixes of >= 2 cores
+        if any(v >= G_OUT for v in suf):
+            ctx.label("suffix_product_overflows")
+        if any(v <= -G_OUT for v in suf):
+            ctx.label("suffix_product_underflows")
+        if any(abs(v) >= G_OUT for v in sub):
+            ctx.label("inner_product_out_of_range")
+        worst_sub = max([worst_sub] + [abs(v) for v in sub])
+    ctx.label("every_subproduct_representable" if worst_sub < G_OUT - 100 else "some_subproduct_not_representable" if worst_sub >= G_OUT else "subproduct_at_the_edge")
+    ctx.nontrivial(q >= 3 and worst_sub >= G_OUT)
+
+    # ---- qtt_to_tt on the whole tensor, core_qtt_to_tt mode by mode
+    args_in = [c.copy() for c in Zs]
+    T = ctx.lib(teneva.qtt_to_tt, args_in, q)
+    ctx.check(all(np.array_equal(a, b) for a, b in zip(args_in, Zs)), "qtt_to_tt changed its argument")
+    ctx.check(isinstance(T, list) and len(T) == d and all(isinstance(c, np.ndarray) for c in T), "qtt_to_tt: not a list of d cores",
+              got=len(T) if isinstance(T, list) else type(T).__name__)
+    for k in range(d):
+        mode = slice(k * q, (k + 1) * q)
+        S = int(sum(exps[k]))
+        ref = own_merge(base[mode])
+        rmax = max(c.shape[2] for c in base[mode])
+        B = 1.0
+        for c in base[mode]:
+            B *= max(1.0, max(c.shape[0], c.shape[2]) * float(np.max(np.abs(c))))
+        ctx.check(B < 2.0 ** 200, "internal: base cores are not of moderate magnitude", B=B)
+        tol = _rounding_tol(base[mode]) + 4.0 * q * rmax * 2.0 ** (G_PMAX - 1075) * B
+        want = np.ldexp(ref, S)
+        H = ctx.lib(teneva.core_qtt_to_tt, [c.copy() for c in Zs[mode]])
+        where = dict(k=k, q=q, exponents=exps[k], prefix_exponents=np.cumsum(exps[k]).tolist(), total_exponent=S, ranks=rz[k * q:(k + 1) * q + 1], values=fam)
+        for got, what in ((T[k], "qtt_to_tt"), (H, "core_qtt_to_tt")):
+            ctx.check(isinstance(got, np.ndarray) and got.shape == (rz[k * q], n, rz[(k + 1) * q]), f"{what}: core is not of shape q_0 x 2^q x q_q",
+                      got=getattr(got, "shape", None), **where)
+            ctx.check(bool(np.all(np.isfinite(got))), f"{what}: non-finite entries for QTT-cores scaled by powers of two inside the mode "
+                      "(every prefix product and the result are representable)", want_max=float(np.max(np.abs(want))), **where)
+            # compared at the scale of the base cores (division by 2^S is exact for every entry above 2^(S-1022); smaller ones
+            # are below the underflow allowance anyway)
+            _close(ctx, np.ldexp(np.asarray(got, dtype=float), -S), ref, tol,
+                   f"{what}: merge of QTT-cores scaled by 2^s_j is not 2^(sum s_j) times the merge of the unscaled cores (shown divided by 2^(sum s_j))", ex, **where)
+        if models is not None and models[k][0] is not None:
+            err = fro(np.ldexp(np.asarray(T[k], dtype=float), -S) - Y[k])
+            bound = models[k][1] + 2.0 * fro(tol)
+            ctx.check(err <= bound, "qtt_to_tt of the re-gauged tt_to_qtt(Y), divided by the gauge factor, differs from the core of Y beyond sqrt(q)*e + q*floor",
+                      err=err, bound=bound, regime=models[k][0], **where)
+            ctx.label("round_trip_through_regauged_qtt_checked")
+    ctx.inner(2 * d - 1)
+
+
 SUBCHECKS = [
     Sub("index", prop_index, enumerate=index_blocks, exhaustive=True),
     Sub("convert", prop_convert, strategy=convert_cases, quick=400, thorough=4000),
@@ -1735,4 +1935,5 @@ SUBCHECKS = [
     Sub("history", prop_history, strategy=history_cases, quick=40, thorough=600),
     Sub("dtype", prop_dtype, strategy=dtype_cases, quick=120, thorough=1500),
     Sub("layout", prop_layout, strategy=layout_cases, quick=60, thorough=600),
+    Sub("gauge", prop_gauge, strategy=gauge_cases, quick=150, thorough=2000),
 ]
